@@ -70,6 +70,18 @@ Definition R := outcome (ast * list token).
 Definition built (e : ast) (ts : list token) : R :=
   if MAX_DEPTH <? ast_height e then Err else Ok (e, ts).
 
+(* the loop of parse_primary_inner: postfix operators are taken one after the other by the primary they follow *)
+Fixpoint parse_postfixes (f : nat) (lhs : ast) (ts : list token) {struct f} : R :=
+  match f with O => Fuel | S f' =>
+    match ts with
+    | TOp op :: _ =>
+        if is_postfix tbl op then
+          advance ts >>= fun ts2 => built (APostfix lhs op) ts2 >>= fun '(e, ts3) => parse_postfixes f' e ts3
+        else Ok (lhs, ts)
+    | _ => Ok (lhs, ts)
+    end
+  end.
+
 Fixpoint parse_expression (f : nat) (d : N) (ts : list token) {struct f} : R :=
   match f with O => Fuel | S f' =>
     parse_primary f' d ts >>= fun '(lhs, ts1) => parse_op f' d 0%Z lhs ts1
@@ -79,13 +91,7 @@ Fixpoint parse_expression (f : nat) (d : N) (ts : list token) {struct f} : R :=
 with parse_primary (f : nat) (d : N) (ts : list token) {struct f} : R :=
   match f with O => Fuel | S f' =>
     if MAX_DEPTH <? d + 1 then Err else
-    parse_token f' (d + 1) ts >>= fun '(lhs, ts1) =>
-    match ts1 with
-    | TOp op :: _ =>
-        if is_postfix tbl op then advance ts1 >>= fun ts2 => built (APostfix lhs op) ts2
-        else Ok (lhs, ts1)
-    | _ => Ok (lhs, ts1)
-    end
+    parse_token f' (d + 1) ts >>= fun '(lhs, ts1) => parse_postfixes f' lhs ts1
   end
 
 (* parse_token with parse_unary, parse_delim, parse_open_paren inlined *)
